@@ -126,6 +126,8 @@ func init() {
 }
 
 func runC19(c *Ctx, r *Report) {
+	r.Rule("C19/settings-writers", "a setting an option can store is otherwise written only by constructors and by its listed run-time owner", 5)
+	checkSettingsWriters(c, r, "C19/settings-writers", nil)
 	r.Rule("C19/ignored-first", "before it has examined the type of the object it is applied to an option returns no error other than the rejection of its own value (bad-option)", 40)
 	checkOptionIgnoredFirst(c, r, "C19/ignored-first")
 	r.Rule("C19/constructors-relay", "constructors hand on the errors of options and nested constructors unwrapped or wrapped with %w", 1)
